@@ -323,7 +323,7 @@ def make_service(rec):
         def exposed_park(self):
             with rec.lock:
                 rec.parked += 1
-            rec.release.wait(BOUND)
+            rec.release.wait(20 * BOUND)        # until the harness lets go (after close(), or at the end of the history)
             return 1
 
         def on_disconnect(self, conn):
@@ -491,6 +491,7 @@ class History:
         self.sent = {}
         self.fast = bool(job.get("fast"))
         self.stalling = set()
+        self.parked_cids = set()
         del THREAD_ERRORS[:]
 
     # ------------------------------------------------------------ set-up / tear-down
@@ -743,6 +744,8 @@ class History:
             return          # no worker is free (C16's finding F7; c17_no_residue carries the same guard)
         kind = self.cfg["kind"]
         srv = self.srv
+        if self.parked_cids and not self.rec.release.is_set():
+            return          # a worker the harness itself keeps busy inside a handler cannot have noticed its client's departure yet
         departed = set(c.cid for c in self.clients.values() if c.gone)
 
         def table_residue():
@@ -1271,6 +1274,7 @@ class History:
                 pass
         wait_until(lambda: self.rec.parked > before, self.B())
         self.stalling.add(cid)
+        self.parked_cids.add(cid)
         self.sent[cid] = self.sent.get(cid, b"")
         self.replies.append(["park", self.rec.parked > before])
         self.settle(idx)
